@@ -31,7 +31,7 @@ def style_ref(name, style):
     sname = style.name            # e.g. LOWER_SNAKE, CAMEL, UPPER_DOT
     parts = sname.split("_")
     case, sep = parts[0], _SEP[parts[1] if len(parts) > 1 else ""]
-    fn = {"LOWER": (str.lower, str.lower), "CAMEL": (str.lower, str.title), "PASCAL": (str.title, str.title), "UPPER": (str.upper, str.upper)}[case]
+    fn = {"LOWER": (str.lower, str.lower), "CAMEL": (str.lower, str.capitalize), "PASCAL": (str.capitalize, str.capitalize), "UPPER": (str.upper, str.upper)}[case]
     out = [fn[0](words[0])] + [fn[1](w) for w in words[1:]]
     return lead + sep.join(out) + trail
 
